@@ -4,7 +4,7 @@ from ..callgraph import CallGraph
 from ..facts import relfile
 from ..registry import registrations
 from ..report import RuleResult
-from .c01 import find_body, roots
+from .c01 import find_body, roots, field_roots
 from .c20 import arm_named
 
 EXPLANATION = (
@@ -44,8 +44,8 @@ def rule_k1(F):
             if c["m"] not in TRAPPING:
                 continue
             key = "%s %s" % (arm, c["m"])
-            div_roots = roots(ld, c["args"][-1]) - {"self"} if c["args"] else set()
-            guards = [g for g in calls if g["m"] in GUARDS and g["line"] <= c["line"] and any((roots(ld, a) - {"self"}) & div_roots for a in g["args"])]
+            div_roots = field_roots(ld, c["args"][-1]) - {"self"} if c["args"] else set()
+            guards = [g for g in calls if g["m"] in GUARDS and g["line"] <= c["line"] and any((field_roots(ld, a) - {"self"}) & div_roots for a in g["args"])]
             r.inst(key, {"arm": arm, "op": c["m"], "operand": sorted(div_roots), "guards_before": [g["m"] for g in guards]})
             if not guards:
                 r.bad("codegen instruction", key, relfile(b.file), c["line"],
